@@ -105,3 +105,48 @@ func TestSmokeIng(t *testing.T) {
 		t.Logf("shutdown: %v", g.Shutdown())
 	})
 }
+
+func TestSmokeTCP(t *testing.T) {
+	if os.Getenv("VERIF_SMOKE") == "" {
+		t.Skip()
+	}
+	kit.T = t
+	kit.Bubble(func() {
+		tr := &kit.Trace{Keep: true}
+		g, err := world.NewIng(smokeSpec(), world.IngSpec{Workers: 2, Queue: 4, Sockets: 1, TCP: true}, 1, tr)
+		if err != nil {
+			t.Fatal(err)
+		}
+		defer g.Close()
+		kit.SleepSettle(5 * time.Second)
+		c := g.DialTCP(netip.MustParseAddrPort("10.1.1.1:5000"), 0)
+		var frames []byte
+		for i, name := range []string{"www.example.com.", "nx.example.com.", "www.unsigned.com."} {
+			q := new(dns.Msg)
+			q.SetQuestion(name, dns.TypeA)
+			q.Id = uint16(200 + i)
+			b, _ := q.Pack()
+			frames = append(frames, byte(len(b)>>8), byte(len(b)))
+			frames = append(frames, b...)
+		}
+		c.Write(frames[:7])
+		kit.SleepSettle(100 * time.Millisecond)
+		c.Write(frames[7:])
+		go func() {
+			buf := make([]byte, 65536)
+			for {
+				c.SetReadDeadline(time.Now().Add(20 * time.Second))
+				n, err := c.Read(buf)
+				if n > 0 {
+					t.Logf("at %v read %d bytes: first frame len %d id %d", g.Now(), n, int(buf[0])<<8|int(buf[1]), int(buf[2])<<8|int(buf[3]))
+				}
+				if err != nil {
+					t.Logf("at %v read err %v", g.Now(), err)
+					return
+				}
+			}
+		}()
+		kit.SleepSettle(15 * time.Second)
+		t.Logf("shutdown: %v", g.Shutdown())
+	})
+}
